@@ -334,7 +334,9 @@ func enumStringsAll(pieces []string, maxLen int, fn func(s string)) {
 
 // spliceItem is a node of the splice generator's own template tree.
 type spliceItem struct {
-	Kind string       // text | print | if | ifelse | each | comment
+	Kind string       // text | print | if | ifelse | each | comment | eachctl | forctl
+	K    int          // eachctl / forctl: the pass (1-based) in which the control directive fires
+	Ctl  string       // eachctl / forctl: breakIf | continueIf | if-break | if-continue (Body before it, Else after it)
 	Text string       // text run, printed literal, comment body
 	Out  string       // for print: what it renders
 	Cond bool         // if / ifelse
@@ -400,6 +402,47 @@ func spliceRender(items []spliceItem, o *spliceOut) string {
 			for i := 0; i < it.N; i++ {
 				out.WriteString(body)
 			}
+		case "eachctl", "forctl":
+			// a loop whose body holds a control directive between two stretches of items:
+			// the pass in which it fires shows the first stretch only, and @break ends the loop
+			v := "v"
+			if it.Kind == "eachctl" {
+				arr := make([]string, it.N)
+				for i := range arr {
+					arr[i] = fmt.Sprint(i + 1)
+				}
+				o.construct("@each", "@each(v in ["+strings.Join(arr, ", ")+"])")
+			} else {
+				v = "i"
+				o.construct("@for", fmt.Sprintf("@for(i = 1; i <= %d; i++)", it.N))
+			}
+			b1 := spliceRender(it.Body, o)
+			switch it.Ctl {
+			case "breakIf":
+				o.construct("@breakIf", fmt.Sprintf("@breakIf(%s == %d)", v, it.K))
+			case "continueIf":
+				o.construct("@continueIf", fmt.Sprintf("@continueIf(%s == %d)", v, it.K))
+			case "if-break":
+				o.construct("@if", fmt.Sprintf("@if(%s == %d)", v, it.K))
+				o.construct("@break", "@break")
+				o.construct("@end", "@end")
+			default:
+				o.construct("@if", fmt.Sprintf("@if(%s == %d)", v, it.K))
+				o.construct("@continue", "@continue")
+				o.construct("@end", "@end")
+			}
+			b2 := spliceRender(it.Else, o)
+			o.construct("@end", "@end")
+			for pass := 1; pass <= it.N; pass++ {
+				out.WriteString(b1)
+				if pass == it.K {
+					if it.Ctl == "breakIf" || it.Ctl == "if-break" {
+						break
+					}
+					continue
+				}
+				out.WriteString(b2)
+			}
 		}
 	}
 	return out.String()
@@ -414,7 +457,7 @@ func genSpliceItems(depth int) *rapid.Generator[[]spliceItem] {
 		n := rapid.IntRange(0, 4).Draw(rt, "n")
 		var items []spliceItem
 		for i := 0; i < n; i++ {
-			k := rapid.IntRange(0, 9).Draw(rt, "kind")
+			k := rapid.IntRange(0, 11).Draw(rt, "kind")
 			if depth <= 0 && k >= 7 {
 				k = 0
 			}
@@ -432,8 +475,15 @@ func genSpliceItems(depth int) *rapid.Generator[[]spliceItem] {
 				items = append(items, spliceItem{Kind: "if", Cond: rapid.Bool().Draw(rt, "cond"), Body: genSpliceItems(depth-1).Draw(rt, "body")})
 			case k == 8:
 				items = append(items, spliceItem{Kind: "ifelse", Cond: rapid.Bool().Draw(rt, "cond"), Body: genSpliceItems(depth-1).Draw(rt, "body"), Else: genSpliceItems(depth-1).Draw(rt, "else")})
-			default:
+			case k == 9:
 				items = append(items, spliceItem{Kind: "each", N: rapid.IntRange(0, 3).Draw(rt, "n"), Body: genSpliceItems(depth-1).Draw(rt, "body")})
+			default:
+				items = append(items, spliceItem{
+					Kind: rapid.SampledFrom([]string{"eachctl", "forctl"}).Draw(rt, "loop"),
+					N:    rapid.IntRange(0, 3).Draw(rt, "n"), K: rapid.IntRange(1, 4).Draw(rt, "firesIn"),
+					Ctl:  rapid.SampledFrom([]string{"breakIf", "continueIf", "if-break", "if-continue"}).Draw(rt, "ctl"),
+					Body: genSpliceItems(depth-1).Draw(rt, "before"), Else: genSpliceItems(depth-1).Draw(rt, "after"),
+				})
 			}
 		}
 		return items
@@ -476,7 +526,7 @@ func spliceSound(src string, o *spliceOut) (ok bool, why string) {
 
 func TestC05_Splice(t *testing.T) {
 	c := harness.New(t, "C05", "splice",
-		"random templates made of adversarial text runs (starting with }}, }, ), --}}; escapes; multi-byte; CRLF) spliced around {{ literal }}, @if/@else/@end with literal conditions, @each over literal arrays and comments, nested to depth 2; output must be the concatenation of the text runs (minus escape backslashes) and the blocks' known outputs. Cases in which the reference scanner says a text run would merge with a neighbouring construct are skipped. Non-trivial: >= 1 construct and a text run that contains one of @ \\ { } ) or non-ASCII directly after a construct. Distinct by hash of the source.")
+		"random templates made of adversarial text runs (starting with }}, }, ), --}}; escapes; multi-byte; CRLF) spliced around {{ literal }}, @if/@else/@end with literal conditions, @each over literal arrays, @each/@for loops whose body holds @breakIf / @continueIf / @if(..)@break@end / @if(..)@continue@end firing in a chosen pass (or never) between two stretches of items, and comments, nested to depth 2; output must be the concatenation of the text runs (minus escape backslashes) and the blocks' known outputs. Cases in which the reference scanner says a text run would merge with a neighbouring construct are skipped. Non-trivial: >= 1 construct and a text run that contains one of @ \\ { } ) or non-ASCII directly after a construct. Distinct by hash of the source.")
 	defer c.Finish()
 	runRapid(t, c, 40000, 360000, func(rt *rapid.T) {
 		items := genSpliceItems(2).Draw(rt, "items")
